@@ -1,4 +1,378 @@
-import EE.Model.Program
+import EE.Props.C02
+import EE.Model.Render
+import EE.Props.C05
+/-! # C12 — `expr()` output re-parses to the same tree
+
+`expr()` decides, node by node, which operands to parenthesise (`needParen*` in `Model/Render`,
+transcribed from parser.rs). `exprCst` is the same decision written as a `CST` — the expression
+`expr()` writes, before it is turned into characters — and `expr_text` shows the model's text
+rendering *is* that expression printed with `expr()`'s spacing. The theorems:
+
+* `expr_cst_canonical` — what `expr()` writes is canonical for the operator table: it puts
+  parentheses exactly where the table needs them (and some harmless extra ones);
+* `expr_reparses` — hence, by C02, parsing the tokens of `expr()`'s output returns the tree that was
+  rendered, for **every** tree the parser can produce (`Producible`, shown of every parser result
+  in `parse_producible`), every operator table satisfying `TableOK`;
+* `expr_idempotent` — rendering the re-parsed tree gives the same text.
+
+Not proved here (checked by the correspondence runs on every generated tree): that the *characters*
+of `cstText c` tokenize back to `c.flatten` (numbers print and re-read exactly, names and
+operators are separated by the blanks `expr()` inserts). -/
 namespace EE.Props.C12
-theorem placeholder : True := trivial
+open EE EE.Spec EE.Spec.CST EE.Props.C02
+
+def pwrap (b : Bool) (c : CST) : CST := if b then .paren c else c
+
+mutual
+/-- the expression `expr()` writes for a tree -/
+def exprCst (regs : Regs) : AST → CST
+  | .lit (.num d) => .atom (.num d)
+  | .lit (.bool b) => .atom (.bool b)
+  | .lit (.str s) => .atom (.str s)
+  | .ref n => .atom (.ref n)
+  | .call n args => .call n (exprCstList regs args)
+  | .unary op rhs => .unary op (pwrap (needParenUnary rhs) (exprCst regs rhs))
+  | .binary op l r => .bin false op (pwrap (needParenLeft regs op l) (exprCst regs l)) (pwrap (needParenRight regs op r) (exprCst regs r))
+  | .postfix l op => .postfix (pwrap (needParenPostfix l) (exprCst regs l)) op
+  | .ternary c a b => .tern (pwrap (isTernary c) (exprCst regs c)) (exprCst regs a) (exprCst regs b)
+  | .list xs => .list (exprCstList regs xs)
+  | .map kvs => .map (exprCstMap regs kvs)
+  | .stmt _ => .atom (.ref [])
+  | .none => .atom (.ref [])
+def exprCstList (regs : Regs) : List AST → CList
+  | [] => .nil
+  | a :: as => .cons (exprCst regs a) (exprCstList regs as)
+def exprCstMap (regs : Regs) : List (AST × AST) → CMap
+  | [] => .nil
+  | (k, v) :: r => .cons (exprCst regs k) (exprCst regs v) (exprCstMap regs r)
+end
+
+mutual
+/-- trees the parser can produce for an expression: every operator in its registered role, no
+statement chain or placeholder inside -/
+def Producible (regs : Regs) : AST → Prop
+  | .lit _ => True
+  | .ref _ => True
+  | .call _ args => ProducibleList regs args
+  | .unary op rhs => regs.isPrefix op = true ∧ Producible regs rhs
+  | .binary op l r => regs.isInfix op = true ∧ Producible regs l ∧ Producible regs r
+  | .postfix l op => regs.isPostfix op = true ∧ Producible regs l
+  | .ternary c a b => Producible regs c ∧ Producible regs a ∧ Producible regs b
+  | .list xs => ProducibleList regs xs
+  | .map kvs => ProducibleMap regs kvs
+  | .stmt _ => False
+  | .none => False
+def ProducibleList (regs : Regs) : List AST → Prop
+  | [] => True
+  | a :: as => Producible regs a ∧ ProducibleList regs as
+def ProducibleMap (regs : Regs) : List (AST × AST) → Prop
+  | [] => True
+  | (k, v) :: r => Producible regs k ∧ Producible regs v ∧ ProducibleMap regs r
+end
+
+theorem strip_pwrap (b : Bool) (c : CST) : (pwrap b c).strip = c.strip := by
+  cases b <;> simp [pwrap, CST.strip]
+
+mutual
+theorem strip_exprCst (regs : Regs) : ∀ t : AST, Producible regs t → (exprCst regs t).strip = t
+  | .lit (.num d), _ => rfl
+  | .lit (.bool b), _ => rfl
+  | .lit (.str s), _ => rfl
+  | .ref n, _ => rfl
+  | .call n args, h => by simp only [exprCst, CST.strip, strip_exprCstList regs args h]
+  | .unary op rhs, h => by simp only [exprCst, CST.strip, strip_pwrap, strip_exprCst regs rhs h.2]
+  | .binary op l r, h => by simp only [exprCst, CST.strip, strip_pwrap, strip_exprCst regs l h.2.1, strip_exprCst regs r h.2.2, wrapNot]; rfl
+  | .postfix l op, h => by simp only [exprCst, CST.strip, strip_pwrap, strip_exprCst regs l h.2]
+  | .ternary c a b, h => by
+    simp only [exprCst, CST.strip, strip_pwrap, strip_exprCst regs c h.1, strip_exprCst regs a h.2.1, strip_exprCst regs b h.2.2]
+  | .list xs, h => by simp only [exprCst, CST.strip, strip_exprCstList regs xs h]
+  | .map kvs, h => by simp only [exprCst, CST.strip, strip_exprCstMap regs kvs h]
+  | .stmt _, h => h.elim
+  | .none, h => h.elim
+theorem strip_exprCstList (regs : Regs) : ∀ ts : List AST, ProducibleList regs ts → (exprCstList regs ts).strip = ts
+  | [], _ => rfl
+  | a :: as, h => by simp only [exprCstList, CList.strip, strip_exprCst regs a h.1, strip_exprCstList regs as h.2]
+theorem strip_exprCstMap (regs : Regs) : ∀ ts : List (AST × AST), ProducibleMap regs ts → (exprCstMap regs ts).strip = ts
+  | [], _ => rfl
+  | (k, v) :: r, h => by
+    simp only [exprCstMap, CMap.strip, strip_exprCst regs k h.1, strip_exprCst regs v h.2.1, strip_exprCstMap regs r h.2.2]
+end
+
+/-- the shape of what `exprCst` returns, by the shape of the tree -/
+theorem exprCst_shape (regs : Regs) (t : AST) (h : Producible regs t) :
+    ((exprCst regs t).isTern = isTernary t) ∧ ((exprCst regs t).root? = match t with | .binary op _ _ => some op | _ => none) := by
+  cases t with
+  | lit l => cases l <;> exact ⟨rfl, rfl⟩
+  | stmt _ => exact h.elim
+  | none => exact h.elim
+  | _ => exact ⟨rfl, rfl⟩
+
+theorem canon_pwrap {regs : Regs} {b : Bool} {c : CST} (h : Canon regs c) : Canon regs (pwrap b c) := by
+  cases b <;> simpa [pwrap, Canon] using h
+
+mutual
+/-- **`expr()` writes canonically.** -/
+theorem expr_cst_canonical (regs : Regs) (tb : TableOK regs) : ∀ t : AST, Producible regs t → Canon regs (exprCst regs t)
+  | .lit (.num d), _ => trivial
+  | .lit (.bool b), _ => trivial
+  | .lit (.str s), _ => trivial
+  | .ref n, _ => trivial
+  | .call n args, h => by simp only [exprCst, Canon]; exact expr_cst_canonicalList regs tb args h
+  | .list xs, h => by simp only [exprCst, Canon]; exact expr_cst_canonicalList regs tb xs h
+  | .map kvs, h => by simp only [exprCst, Canon]; exact expr_cst_canonicalMap regs tb kvs h
+  | .stmt _, h => h.elim
+  | .none, h => h.elim
+  | .unary op rhs, h => by
+    simp only [exprCst, Canon]
+    refine ⟨h.1, ?_, canon_pwrap (expr_cst_canonical regs tb rhs h.2)⟩
+    have hp := h.2
+    cases rhs with
+    | lit l => cases l <;> rfl
+    | stmt _ => exact hp.elim
+    | none => exact hp.elim
+    | _ => rfl
+  | .postfix l op, h => by
+    simp only [exprCst, Canon]
+    refine ⟨h.1, ?_, canon_pwrap (expr_cst_canonical regs tb l h.2)⟩
+    have hp := h.2
+    cases l with
+    | lit l => cases l <;> rfl
+    | stmt _ => exact hp.elim
+    | none => exact hp.elim
+    | _ => rfl
+  | .ternary c a b, h => by
+    simp only [exprCst, Canon]
+    refine ⟨canon_pwrap (expr_cst_canonical regs tb c h.1), ?_, expr_cst_canonical regs tb a h.2.1, expr_cst_canonical regs tb b h.2.2⟩
+    cases hc : isTernary c with
+    | true => rfl
+    | false => simp only [pwrap, Bool.false_eq_true, if_false]; rw [(exprCst_shape regs c h.1).1, hc]
+  | .binary op l r, h => by
+    obtain ⟨hinf, hl, hr⟩ := h
+    simp only [exprCst, Canon]
+    have bo := bp_facts tb hinf
+    have so := bp_snd hinf
+    refine ⟨hinf, canon_pwrap (expr_cst_canonical regs tb l hl), canon_pwrap (expr_cst_canonical regs tb r hr), ?_, ?_, ?_, ?_⟩
+    · -- left operand is not an unparenthesised conditional
+      cases hn : needParenLeft regs op l with
+      | true => rfl
+      | false =>
+        simp only [pwrap, Bool.false_eq_true, if_false]; rw [(exprCst_shape regs l hl).1]
+        cases l <;> first | rfl | (simp [needParenLeft, astBp, isTernary] at hn)
+    · cases hn : needParenRight regs op r with
+      | true => rfl
+      | false =>
+        simp only [pwrap, Bool.false_eq_true, if_false]; rw [(exprCst_shape regs r hr).1]
+        cases r <;> first | rfl | (simp [needParenRight, astBp, isTernary] at hn)
+    · -- an unparenthesised infix left operand binds at least as tight (on its right side)
+      intro o' ho'
+      cases hn : needParenLeft regs op l with
+      | true => simp [pwrap, hn, root?] at ho'
+      | false =>
+        simp only [pwrap, hn, Bool.false_eq_true, if_false] at ho'
+        rw [(exprCst_shape regs l hl).2] at ho'
+        cases l with
+        | binary o2 l2 r2 =>
+          simp only [Option.some.injEq] at ho'; subst ho'
+          have hinf2 : regs.isInfix o2 = true := hl.1
+          have b2 := bp_facts tb hinf2
+          have s2 := bp_snd hinf2
+          simp only [needParenLeft, astBp, decide_eq_false_iff_not] at hn
+          unfold okLeft
+          rcases Int.lt_trichotomy (Regs.prec regs op) (Regs.prec regs o2) with hlt | heq | hgt
+          · exact Or.inl hlt
+          · refine Or.inr ⟨heq.symm, ?_⟩
+            cases hr2 : Regs.isRight regs o2 with
+            | false => rw [tb.assoc op o2 hinf hinf2 heq]; exact hr2
+            | true => rw [hr2] at s2; simp only [if_true] at s2; omega
+          · cases hr2 : Regs.isRight regs o2 <;> rw [hr2] at s2 <;> simp only [if_true, Bool.false_eq_true, if_false] at s2 <;> omega
+        | _ => simp at ho'
+    · intro o' ho'
+      cases hn : needParenRight regs op r with
+      | true => simp [pwrap, hn, root?] at ho'
+      | false =>
+        simp only [pwrap, hn, Bool.false_eq_true, if_false] at ho'
+        rw [(exprCst_shape regs r hr).2] at ho'
+        cases r with
+        | binary o2 l2 r2 =>
+          simp only [Option.some.injEq] at ho'; subst ho'
+          have hinf2 : regs.isInfix o2 = true := hr.1
+          have b2 := bp_facts tb hinf2
+          simp only [needParenRight, astBp, decide_eq_false_iff_not] at hn
+          unfold okRight
+          rcases Int.lt_trichotomy (Regs.prec regs op) (Regs.prec regs o2) with hlt | heq | hgt
+          · exact Or.inl hlt
+          · refine Or.inr ⟨heq.symm, ?_⟩
+            cases hr1 : Regs.isRight regs op with
+            | true => rfl
+            | false => rw [hr1] at so; simp only [Bool.false_eq_true, if_false] at so; omega
+          · cases hr1 : Regs.isRight regs op <;> rw [hr1] at so <;> simp only [if_true, Bool.false_eq_true, if_false] at so <;> omega
+        | _ => simp at ho'
+theorem expr_cst_canonicalList (regs : Regs) (tb : TableOK regs) : ∀ ts : List AST, ProducibleList regs ts → CanonList regs (exprCstList regs ts)
+  | [], _ => trivial
+  | a :: as, h => ⟨expr_cst_canonical regs tb a h.1, expr_cst_canonicalList regs tb as h.2⟩
+theorem expr_cst_canonicalMap (regs : Regs) (tb : TableOK regs) : ∀ ts : List (AST × AST), ProducibleMap regs ts → CanonMap regs (exprCstMap regs ts)
+  | [], _ => trivial
+  | (k, v) :: r, h => ⟨expr_cst_canonical regs tb k h.1, expr_cst_canonical regs tb v h.2.1, expr_cst_canonicalMap regs tb r h.2.2⟩
+end
+
+/-- **`expr()` output re-parses to the same tree** (token level): for every producible tree, within
+the nesting limit. -/
+theorem expr_reparses (regs : Regs) (tb : TableOK regs) (lim : Nat) (t : AST) (hp : Producible regs t) (hf : Fits lim (exprCst regs t)) :
+    parseTokens regs lim (exprCst regs t).flatten = .ok t := by
+  rw [groups_as_written regs tb lim _ (expr_cst_canonical regs tb t hp) hf, strip_exprCst regs t hp]
+
+/-- **Rendering is idempotent**: the re-parsed tree renders to the same expression. -/
+theorem expr_idempotent (regs : Regs) (tb : TableOK regs) (lim : Nat) (t t' : AST) (hp : Producible regs t) (hf : Fits lim (exprCst regs t))
+    (h : parseTokens regs lim (exprCst regs t).flatten = .ok t') : exprCst regs t' = exprCst regs t ∧ expr regs t' = expr regs t := by
+  rw [expr_reparses regs tb lim t hp hf] at h
+  injection h with h
+  subst h
+  exact ⟨rfl, rfl⟩
+
+
+/-! ## the text `expr()` returns is that expression, printed -/
+
+mutual
+/-- `expr()`'s spacing: a blank around infix operators, after a prefix and before a postfix operator,
+around `?` and `:`; none around brackets, commas and the `:` of a map entry. -/
+def cstText : CST → Text
+  | .atom (.num d) => d.toText
+  | .atom (.bool b) => litText (.bool b)
+  | .atom (.str s) => litText (.str s)
+  | .atom (.ref n) => n
+  | .paren c => paren (cstText c)
+  | .unary o c => o ++ (' ' :: cstText c)
+  | .postfix c o => cstText c ++ (' ' :: o)
+  | .call n args => n ++ ('(' :: (joinWith [','] (cstTextList args) ++ [')']))
+  | .list xs => '[' :: (joinWith [','] (cstTextList xs) ++ [']'])
+  | .map kvs => '{' :: (joinWith [','] (cstTextMap kvs) ++ ['}'])
+  | .bin nt o l r => cstText l ++ (' ' :: ((if nt then ['n', 'o', 't', ' '] else []) ++ (o ++ (' ' :: cstText r))))
+  | .tern c a b => cstText c ++ ([' ', '?', ' '] ++ (cstText a ++ ([' ', ':', ' '] ++ cstText b)))
+def cstTextList : CList → List Text
+  | .nil => []
+  | .cons c r => cstText c :: cstTextList r
+def cstTextMap : CMap → List Text
+  | .nil => []
+  | .cons k v r => (cstText k ++ (':' :: cstText v)) :: cstTextMap r
+end
+
+theorem cstText_pwrap (b : Bool) (c : CST) : cstText (pwrap b c) = wrapIf b (cstText c) := by
+  cases b <;> simp [pwrap, wrapIf, cstText]
+
+mutual
+/-- The model of `expr()` (a transcription of parser.rs, tied to it by the correspondence runs)
+returns exactly `exprCst` printed. -/
+theorem expr_text (regs : Regs) : ∀ t : AST, Producible regs t → expr regs t = cstText (exprCst regs t)
+  | .lit (.num d), _ => by simp [expr, exprCst, cstText, litText]
+  | .lit (.bool b), _ => by simp [expr, exprCst, cstText]
+  | .lit (.str s), _ => by simp [expr, exprCst, cstText]
+  | .ref n, _ => by simp [expr, exprCst, cstText]
+  | .call n args, h => by simp only [expr, exprCst, cstText, expr_textList regs args h]
+  | .list xs, h => by simp only [expr, exprCst, cstText, expr_textList regs xs h]
+  | .map kvs, h => by simp only [expr, exprCst, cstText, expr_textMap regs kvs h]
+  | .unary op rhs, h => by simp only [expr, exprCst, cstText, cstText_pwrap, expr_text regs rhs h.2]
+  | .postfix l op, h => by simp only [expr, exprCst, cstText, cstText_pwrap, expr_text regs l h.2]
+  | .binary op l r, h => by
+    simp only [expr, exprCst, cstText, cstText_pwrap, expr_text regs l h.2.1, expr_text regs r h.2.2]
+    simp
+  | .ternary c a b, h => by
+    simp only [expr, exprCst, cstText, cstText_pwrap, expr_text regs c h.1, expr_text regs a h.2.1, expr_text regs b h.2.2]
+  | .stmt _, h => h.elim
+  | .none, h => h.elim
+theorem expr_textList (regs : Regs) : ∀ ts : List AST, ProducibleList regs ts → exprList regs ts = cstTextList (exprCstList regs ts)
+  | [], _ => rfl
+  | a :: as, h => by simp only [exprList, exprCstList, cstTextList, expr_text regs a h.1, expr_textList regs as h.2]
+theorem expr_textMap (regs : Regs) : ∀ ts : List (AST × AST), ProducibleMap regs ts → exprMap regs ts = cstTextMap (exprCstMap regs ts)
+  | [], _ => rfl
+  | (k, v) :: r, h => by
+    simp only [exprMap, exprCstMap, cstTextMap, expr_text regs k h.1, expr_text regs v h.2.1, expr_textMap regs r h.2.2]
+end
+
+/-! ## every tree the parser returns is producible -/
+
+mutual
+theorem gtok_prod {regs : Regs} (hnot : regs.isPrefix notName = true) : ∀ {ts : List Tok} {e : AST}, GTok regs ts e → Producible regs e
+  | _, _, .num _ => trivial
+  | _, _, .bool _ => trivial
+  | _, _, .str _ => trivial
+  | _, _, .ref _ => trivial
+  | _, _, .call0 _ => trivial
+  | _, _, .call h => gargs_prod hnot h
+  | _, _, .unary hp h => ⟨hp, gprim_prod hnot h⟩
+  | _, _, .paren h => gexpr_prod hnot h
+  | _, _, .list h => gitems_prod hnot h
+  | _, _, .map h => gentries_prod hnot h
+theorem gprim_prod {regs : Regs} (hnot : regs.isPrefix notName = true) : ∀ {ts : List Tok} {e : AST}, GPrim regs ts e → Producible regs e
+  | _, _, .tok h => gtok_prod hnot h
+  | _, _, .postfix h hp => ⟨hp, gprim_prod hnot h⟩
+theorem gbin_prod {regs : Regs} (hnot : regs.isPrefix notName = true) : ∀ {ts : List Tok} {e : AST}, GBin regs ts e → Producible regs e
+  | _, _, .prim h => gprim_prod hnot h
+  | _, _, .bin hl ho hr => ⟨ho, gbin_prod hnot hl, gbin_prod hnot hr⟩
+  | _, _, .notBin hl ho hr => ⟨hnot, ho, gbin_prod hnot hl, gbin_prod hnot hr⟩
+theorem gexpr_prod {regs : Regs} (hnot : regs.isPrefix notName = true) : ∀ {ts : List Tok} {e : AST}, GExpr regs ts e → Producible regs e
+  | _, _, .bin h => gbin_prod hnot h
+  | _, _, .tern hc ha hb => ⟨gbin_prod hnot hc, gexpr_prod hnot ha, gexpr_prod hnot hb⟩
+theorem gargs_prod {regs : Regs} (hnot : regs.isPrefix notName = true) : ∀ {ts : List Tok} {es : List AST}, GArgs regs ts es → ProducibleList regs es
+  | _, _, .one h => ⟨gexpr_prod hnot h, trivial⟩
+  | _, _, .cons h hr => ⟨gexpr_prod hnot h, gargs_prod hnot hr⟩
+theorem gitems_prod {regs : Regs} (hnot : regs.isPrefix notName = true) : ∀ {ts : List Tok} {es : List AST}, GItems regs ts es → ProducibleList regs es
+  | _, _, .nil => trivial
+  | _, _, .one h => ⟨gexpr_prod hnot h, trivial⟩
+  | _, _, .cons h hr => ⟨gexpr_prod hnot h, gitems_prod hnot hr⟩
+theorem gentries_prod {regs : Regs} (hnot : regs.isPrefix notName = true) : ∀ {ts : List Tok} {es : List (AST × AST)}, GEntries regs ts es → ProducibleMap regs es
+  | _, _, .nil => trivial
+  | _, _, .one hk hv => ⟨gexpr_prod hnot hk, gexpr_prod hnot hv, trivial⟩
+  | _, _, .cons hk hv hr => ⟨gexpr_prod hnot hk, gexpr_prod hnot hv, gentries_prod hnot hr⟩
+end
+
+theorem gprog_prod {regs : Regs} (hnot : regs.isPrefix notName = true) : ∀ {ts : List Tok} {es : List AST}, GProg regs ts es → ProducibleList regs es
+  | _, _, .nil => trivial
+  | _, _, .stmt h hr => ⟨gexpr_prod hnot h, gprog_prod hnot hr⟩
+  | _, _, .stmtSemi h hr => ⟨gexpr_prod hnot h, gprog_prod hnot hr⟩
+
+/-- **Every tree `parse_expression` returns** is a producible expression, or the chain of the
+producible statements of a program. -/
+theorem parse_producible (regs : Regs) (hp : RegsPos regs) (hnot : regs.isPrefix notName = true) (lim : Nat) (hl : 1 ≤ lim)
+    (toks : List Tok) (a : AST) (h : parseTokens regs lim toks = .ok a) :
+    Producible regs a ∨ ∃ es, a = .stmt es ∧ ProducibleList regs es := by
+  obtain ⟨es, hg, rfl⟩ := EE.Props.C05.parse_sound regs hp lim hl toks a h
+  have := gprog_prod hnot hg
+  match es, this with
+  | [], _ => exact Or.inr ⟨[], rfl, trivial⟩
+  | [e], h1 => exact Or.inl h1.1
+  | e :: e2 :: r, h1 => exact Or.inr ⟨_, rfl, h1⟩
+
+/-- End to end for one-expression programs: whatever the parser returned re-parses, from the tokens
+`expr()` writes, to itself. -/
+theorem parsed_expr_reparses (regs : Regs) (tb : TableOK regs) (hnot : regs.isPrefix notName = true) (lim : Nat) (hl : 1 ≤ lim)
+    (toks : List Tok) (t : AST) (h : parseTokens regs lim toks = .ok t) (hns : ∀ es, t ≠ .stmt es) (hf : Fits lim (exprCst regs t)) :
+    parseTokens regs lim (exprCst regs t).flatten = .ok t := by
+  rcases parse_producible regs tb.pos hnot lim hl toks t h with hp | ⟨es, he, _⟩
+  · exact expr_reparses regs tb lim t hp hf
+  · exact absurd he (hns es)
+
+/-- Statement chains: `expr()` joins the statements with `;`; each is written canonically, so the
+program re-parses to the same chain. -/
+theorem stmt_chain_reparses (regs : Regs) (tb : TableOK regs) (lim : Nat) (hl : 1 ≤ lim) (es : List AST) (hp : ProducibleList regs es)
+    (hf : ∀ e ∈ es, Fits lim (exprCst regs e)) (hh : AST.heightList es + 1 ≤ lim) :
+    parseTokens regs lim (flattenProg (es.map (exprCst regs))) = .ok (programTree es) := by
+  have hall : ∀ (l : List AST), ProducibleList regs l → (∀ e ∈ l, Fits lim (exprCst regs e)) →
+      (∀ c ∈ l.map (exprCst regs), Canon regs c ∧ Fits lim c) ∧ (l.map (exprCst regs)).map CST.strip = l := by
+    intro l
+    induction l with
+    | nil => intro _ _; exact ⟨(by intro c hc; cases hc), rfl⟩
+    | cons e r ih =>
+      intro hp hf
+      obtain ⟨h1, h2⟩ := ih hp.2 (fun x hx => hf x (by simp [hx]))
+      refine ⟨?_, by simp only [List.map_cons, strip_exprCst regs e hp.1, h2]⟩
+      intro c hc
+      simp only [List.map_cons, List.mem_cons] at hc
+      rcases hc with rfl | hc
+      · exact ⟨expr_cst_canonical regs tb e hp.1, hf e (by simp)⟩
+      · exact h1 c hc
+  obtain ⟨h1, h2⟩ := hall es hp hf
+  have := program_as_written regs tb lim hl (es.map (exprCst regs)) h1 (by rw [h2]; exact hh)
+  rw [h2] at this
+  exact this
+
 end EE.Props.C12
